@@ -262,6 +262,122 @@ class Whole:
                 self.summaries[bid] = s
             self._preconditions(b, an)
         self._finish_preconditions()
+        try:
+            self._type_invariants()
+        except (KeyError, IndexError, ValueError, TypeError, AttributeError) as e:     # never lets the invariant phase break a run
+            self.errors["type-invariants"] = repr(e)
+
+    # ---- type invariants (A11): `int field <= len(slice field)` of a workspace struct whose fields cannot be written from
+    # outside the crate.  A candidate is kept when every construction of the struct in the workspace establishes it and every
+    # function that holds `&mut` to the struct re-establishes it at each return when it is assumed at entry (induction over the
+    # calls made on a value of the type).  Surviving invariants are assumed at the entry of the functions whose obligations
+    # failed; an obligation discharged that way is marked, nothing else of the first analysis is replaced.
+    def _reanalyse(self, b, invs):
+        an = zone.Analyzer(b, self.summaries, self.cat, self.depth)
+        disp = {}
+        for (y, bi, why) in self.cg.edges.get(b.id, []):
+            if why.startswith("instantiated") or why in ("cha", "default-method"):
+                disp.setdefault(bi, []).append(y)
+        an.dispatch = disp
+        an.type_invs = invs
+        an.run()
+        return an
+
+    def _type_invariants(self):
+        prog = self.prog
+        ws = ("simple_dns", "simple_mdns")
+        self.type_invariants = {}
+
+        def struct_params(b, mut_only=False):
+            out = []
+            for i in range(1, b.argc + 1):
+                t0 = b.local_ty(i)
+                if t0["k"] != "ref" or (mut_only and not t0.get("mut")):
+                    continue
+                inner = b.ty(t0["t"])
+                if inner["k"] == "adt":
+                    out.append((i, inner.get("name")))
+            return out
+        targets = {}
+        for bid, an in self.results.items():
+            b = prog.bodies[bid]
+            if b.crate not in ws or not any((not o.ok) for o in an.obligations):
+                continue
+            for i, sname in struct_params(b):
+                adt = prog.adts.get(sname)
+                if adt is None or adt.get("kind") != "struct" or adt.get("crate") not in ws or len(adt["variants"]) != 1:
+                    continue
+                if any(f.get("pub") for f in adt["variants"][0]["fields"]):
+                    continue            # a public field can be written by anybody
+                targets.setdefault(sname, set()).add(bid)
+        for sname, bids in sorted(targets.items()):
+            adt = prog.adts[sname]
+            tt = prog.types[adt["crate"]]
+            fields = adt["variants"][0]["fields"]
+            ints = [f["name"] for f in fields if tt[f["t"]]["k"] == "int"]
+            sls = [f["name"] for f in fields if tt[f["t"]]["k"] == "ref" and tt[tt[f["t"]]["t"]]["k"] in ("slice", "str")]
+            cands = [(a, g) for a in ints for g in sls]
+            if not cands:
+                continue
+            # constructions
+            n_builds = 0
+            for an in self.results.values():
+                for (aname, fnames, vals, st, tys) in an.struct_builds:
+                    if aname != sname:
+                        continue
+                    n_builds += 1
+                    for (a, g) in list(cands):
+                        fv, gv = vals[fnames.index(a)], vals[fnames.index(g)]
+                        la = an.as_lin(fv)
+                        ln = an.slice_len_of_val(st, gv, tys[fnames.index(g)])
+                        if la is None or ln is None or not entails(st.facts, an.iv, la - ln, an.depth):
+                            cands.remove((a, g))
+            if not n_builds:
+                continue
+            # a field written on a local value of the type (not through `&mut self`) is not followed: give up on the struct
+            for b in prog.bodies.values():
+                if b.crate not in ws:
+                    continue
+                for bl in b.blocks:
+                    for s in bl["stmts"]:
+                        if s["s"] == "assign" and s["pl"]["p"] and isinstance(s["pl"]["p"][0], dict) and s["pl"]["p"][0].get("adt") == sname \
+                                and s["pl"]["p"][0].get("n") in ints + sls:
+                            cands = []
+            # preservation
+            muts = [b for b in prog.bodies.values() if b.crate in ws and b.kind != "Promoted" and any(n == sname for _i, n in struct_params(b, True))]
+            changed = True
+            rounds = 0
+            while cands and changed and rounds < 4:
+                changed = False
+                rounds += 1
+                for b in muts:
+                    if b.id not in self.results:
+                        cands = []
+                        break
+                    an2 = self._reanalyse(b, {sname: list(cands)})
+                    for (bi, st) in an2.ret_states:
+                        for i, n in struct_params(b, True):
+                            if n != sname:
+                                continue
+                            for (a, g) in list(cands):
+                                fv = st.store.get("(*_%d).%s" % (i, a))
+                                ln = st.store.get("len:(*_%d).%s" % (i, g))
+                                if fv is None or ln is None or fv[0] != "lin" or not entails(st.facts, an2.iv, fv[1] - ln[1], an2.depth):
+                                    cands.remove((a, g))
+                                    changed = True
+            if not cands:
+                continue
+            self.type_invariants[sname] = list(cands)
+            # use: obligations of the functions that failed, re-examined under the invariant
+            for bid in sorted(bids):
+                b = prog.bodies[bid]
+                an2 = self._reanalyse(b, {sname: list(cands)})
+                good = set((o.bi, o.kind, o.snippet) for o in an2.obligations if o.ok)
+                for o in self.results[bid].obligations:
+                    if not o.ok and (o.bi, o.kind, o.snippet) in good:
+                        o.ok = True
+                        o.why = "type invariant of %s (%s), established by every construction and kept by every `&mut` method" % (
+                            sname.split("::")[-1], ", ".join("%s <= len(%s)" % c for c in cands))
 
     # ---- preconditions (A4): an obligation over a function's entry cursor / data length may be
     # discharged by its callers, when every caller establishes it and the function cannot be called
